@@ -253,12 +253,12 @@ def r04_5(ctx):
             if s.evaluator != "eval_at_control":
                 ctx.check(not s.tries, "%s %s placement is not droppable" % (cname, "+".join(s.grids)), detail="non-shiftable placement inside try",
                           expected="no try", found="try at line %d" % (s.tries[0].lineno if s.tries else 0), fi=f, node=s.call)
-    # all other handlers in add_constraints of the generic methods
-    for cname in GENERIC:
-        f = prog.method(cname, "add_constraints")
+    # all other handlers in add_constraints of the generic methods, and in the inf-certificate placement
+    for cname in GENERIC + ["inf"]:
+        f = prog.method(cname, "add_constraints") if cname != "inf" else prog.own_method("SamplingMethod", "add_inf_constraints")
         for t in [x for x in walk_no_nested(f.node) if isinstance(x, ast.Try)]:
             for h in t.handlers:
-                ctx.check(h.type is not None and ast.unparse(h.type) == "IndexError", "%s.add_constraints handler" % cname,
+                ctx.check(h.type is not None and ast.unparse(h.type) == "IndexError", "%s handler" % f.qualname,
                           detail="broad exception handler on the placement path", expected="except IndexError",
                           found="except %s" % (ast.unparse(h.type) if h.type else "<bare>"), fi=f, node=h)
 
@@ -736,3 +736,19 @@ def r04_10(ctx):
         reset = [c for c in walk_no_nested(g.node) if isinstance(c, ast.Call) and ast.unparse(c.func) == "Opti.subject_to" and len(c.args) == 1]
         ctx.check(len(reset) == 1 and scg.order[reset[0]] < scg.order[l], "transcribe_placeholders clears Opti's constraints before replay", detail="constraints duplicated on re-run",
                   expected="Opti.subject_to(self) before the loop", found=str(len(reset)), fi=g)
+
+
+@rule("R04.12", min_instances=12, desc="bounds and sense preserved when a constraint carries a scale (rebuild rule, shared with C14)")
+def r04_12(ctx):
+    from .c14 import r14_1
+    r14_1(ctx)
+
+
+@rule("R04.13", min_instances=2, desc="declaring or clearing constraints after a solve reaches the next solve (invalidation, shared with C13)")
+def r04_13(ctx):
+    from .c13 import _is_invalidate
+    for name in ("subject_to", "clear_constraints"):
+        f = ctx.prog.own_method("Stage", name)
+        ok, _ = must_on_all_paths(f.node.body, _is_invalidate)
+        ctx.check(ok, "Stage.%s invalidates the cached transcription" % name, detail="constraints of the previous declaration keep restricting (or new ones are ignored by) the next solve",
+                  expected="self._set_transcribed(False)", found="missing", fi=f)
